@@ -52,13 +52,13 @@ theorem agree_bytes : Agree decBytesGo decBytesStrict := by
         cases r with
         | nil =>
           have : ([] : Bytes).length < len := by simp; omega
-          simp [this]
+          simp [this, h0]
         | cons x xs =>
-          simp only [List.isEmpty_cons, Bool.false_eq_true, if_false]
-          by_cases hl : (x :: xs).length < len
+          simp only [List.isEmpty_cons, Bool.false_eq_true, if_false, List.length_cons]
+          by_cases hl : xs.length + 1 < len
           · simp [hl]
           · simp only [hl, decide_false, if_false]
-            have : len - (x :: xs).length = 0 := by omega
+            have : len - (xs.length + 1) = 0 := by omega
             simp [this]
 
 theorem agree_entry : Agree decEntryGo decEntryStrict := by
@@ -71,7 +71,12 @@ theorem agree_entry : Agree decEntryGo decEntryStrict := by
     obtain ⟨k, r, z1⟩ := p
     rw [hg] at h1
     cases z1 with
-    | true => simp only at h1; simp [h1]
+    | true =>
+      simp only at h1
+      simp only [h1]
+      cases decBytesGo r with
+      | none => simp
+      | some q => obtain ⟨v, r', z2⟩ := q; simp
     | false =>
       simp only at h1
       simp only [h1]
